@@ -652,6 +652,42 @@ def run(chk):
     chk.ob("C01.S2.macro:__private_emit_event", "__private_emit_event passes FirstDefined(when, rt.filter()) and the runtime's emitter/ctxt/clock",
            private_emit("emit::macro_hooks::__private_emit_event"))
 
+    def emit_event_keeps_extent():
+        """`emit!(evt: e)`: the event handed to the pipeline is the caller's event - optionally re-templated, its props extended - with its
+        extent untouched: the pipeline (emit_core::emit) is what decides own-extent-else-clock.  The hook itself never sets an extent or
+        reads the clock."""
+        b = P.body("emit::macro_hooks::__private_emit_event")
+        cs = b.calls_to(path="emit_core::emit")
+        if len(cs) != 1:
+            raise mir.AnchorMissing("the emit_core::emit call of __private_emit_event")
+        names, seen = [], set()
+
+        def chain(o, d=0):
+            if d > 30 or id(o) in seen:
+                return
+            seen.add(id(o))
+            if o[0] == "call":
+                names.append(o[1].callee.get("name"))
+                if o[1].args:
+                    chain(b.origin(o[1].args[0]), d + 1)
+            elif o[0] == "phi":
+                for x in o[1]:
+                    chain(x, d + 1)
+            elif o[0] in ("field", "downcast", "ref", "deref", "copy"):
+                chain(o[1], d + 1)
+        chain(b.origin(cs[0].args[4]))
+        if "to_event" not in names:
+            return False, "the event passed on does not derive from the caller's event (%s)" % names, [], cs[0].loc
+        bad = [n for n in names if n in ("with_extent", "with_ts", "with_mdl", "new")]
+        if bad:
+            return False, ("__private_emit_event rebuilds the event with %s before emitting it: an event that carries its own point or range extent "
+                           "is emitted with another one (the pipeline alone applies own-extent-else-clock)" % bad[0]), [], cs[0].loc
+        clk = [c for c in b.calls(normal_only=True) if c.callee.get("name") == "now"]
+        if clk:
+            return False, "__private_emit_event reads the clock itself at %s" % clk[0].loc, [], clk[0].loc
+        return True, "", [cs[0].loc, "event chain: %s" % " <- ".join(n for n in names if n)]
+    chk.ob("C01.S2.macro:emit_event-keeps-extent", "emit!(evt: ..) passes the caller's event on with its own extent", emit_event_keeps_extent)
+
     # unclassified impls: generic discipline only (no alarm for shape)
     def when_absent_is_none():
         """The tokens interpolated at a hook's `when` position come from an `Option<TokenStream>` turned into tokens by
